@@ -999,6 +999,10 @@ def run(ctx, host=None):
     from .common import session_stability
     session_stability(ctx, chk, R7)
 
+    R8 = chk.rule('C02.R8', 'no hidden state survives between calls or is shared between handles (mutable defaults, mutable class attributes, globals, mutated module-level containers)', 1)
+    from .common import hidden_shared_state
+    hidden_shared_state(ctx, chk, R8)
+
     # rules of other properties that are necessary conditions of this one too: the views equal the model only if the round trip (C01), the index (C03), the streams (C07), deduplication (C09), compression (C10), deletion/repack (C11), import (C14) and bulk lookups (C16) are right
     if host is None:
         from ..report import host_modules
